@@ -9,13 +9,14 @@ class Unknown(Exception):
 
 
 class Eff:
-    __slots__ = ("kind", "ap", "bits", "rop", "val", "exp", "new", "full", "compiler", "order", "inst", "locked")
+    __slots__ = ("kind", "ap", "bits", "rop", "val", "exp", "new", "full", "compiler", "order", "inst", "locked", "memread")
 
     def __init__(self, inst, kind, ap=None, bits=None, rop=None, val=None, exp=None, new=None,
                  full=False, compiler=False, order=None, locked=False):
         self.inst, self.kind, self.ap, self.bits = inst, kind, ap, bits
         self.rop, self.val, self.exp, self.new = rop, val, exp, new
         self.full, self.compiler, self.order, self.locked = full, compiler, order, locked
+        self.memread = None     # asm only: is the memory operand declared read-write ("+m": indirect output plus an indirect input on the same address)?
 
     @property
     def field(self):
@@ -74,6 +75,11 @@ def asm_operands(inst):
     return m, tied, outs, ins
 
 
+def _mr(e, memread):
+    e.memread = memread
+    return e
+
+
 def effect_of(inst):
     """Uniform effect for memory-relevant instructions; None for others."""
     op = inst.op
@@ -126,27 +132,29 @@ def effect_of(inst):
         bits = SUFFIX_BITS[suf]
         atomic = lock or mn == "xchg"
         full = atomic and memclob
+        memread = outs[memop][0].startswith("+") or any(
+            "*" in c and "m" in c and inst.args[opmap[len(outs) + n][1]] == inst.args[addr_arg] for n, c in enumerate(ins))
         if mn == "cmpxchg":
             # "={ax},=*m,r,0,*m": new = input 'r', expected = tied to out0
             new = inst.args[opmap[len(outs)][1]]
             exp = inst.args[tied[0]] if 0 in tied else None
-            return Eff(inst, "cmpxchg", ap, bits, exp=exp, new=new, full=full, compiler=memclob, locked=atomic)
+            return _mr(Eff(inst, "cmpxchg", ap, bits, exp=exp, new=new, full=full, compiler=memclob, locked=atomic), memread)
         if mn == "xchg":
             val = inst.args[tied[0]] if 0 in tied else None
-            return Eff(inst, "xchg", ap, bits, rop="xchg", val=val, full=full, compiler=memclob, locked=atomic)
+            return _mr(Eff(inst, "xchg", ap, bits, rop="xchg", val=val, full=full, compiler=memclob, locked=atomic), memread)
         if mn == "xadd":
             k = [t_ for t_ in tied.values()]
             val = inst.args[k[0]] if k else None
-            return Eff(inst, "rmw", ap, bits, rop="xadd", val=val, full=full, compiler=memclob, locked=atomic)
+            return _mr(Eff(inst, "rmw", ap, bits, rop="xadd", val=val, full=full, compiler=memclob, locked=atomic), memread)
         if mn in ("inc", "dec"):
-            return Eff(inst, "rmw", ap, bits, rop=mn, val=("c", 1, 32), full=full, compiler=memclob, locked=atomic)
+            return _mr(Eff(inst, "rmw", ap, bits, rop=mn, val=("c", 1, 32), full=full, compiler=memclob, locked=atomic), memread)
         # add/sub/and/or/xor: value = first non-memory input
         val = None
         for n, c in enumerate(ins):
             if "m" not in c or "r" in c:
                 val = inst.args[opmap[len(outs) + n][1]]
                 break
-        return Eff(inst, "rmw", ap, bits, rop=mn, val=val, full=full, compiler=memclob, locked=atomic)
+        return _mr(Eff(inst, "rmw", ap, bits, rop=mn, val=val, full=full, compiler=memclob, locked=atomic), memread)
     return None
 
 
